@@ -12,21 +12,6 @@ def O(name, prop, harness, entry, tus, **kw):
     return Obligation(name, prop, harness, entry, tus, **kw)
 
 
-def c17():
-    obs = []
-    obs.append(O('c17.vbyte.roundtrip', 'C17', 'h_codec.cpp', 'h_vbyte_roundtrip', CODEC_TUS, unwind=7,
-                 bounds='all 2^32 values'))
-    obs.append(O('c17.vb2.roundtrip', 'C17', 'h_codec.cpp', 'h_vb2_roundtrip', CODEC_TUS, unwind=7, bounds='all 2^32 values'))
-    obs.append(O('c17.logseq.setget.cap3', 'C17', 'h_codec.cpp', 'h_logseq_setget', CODEC_TUS, defs={'CAP': 3}, unwind=12,
-                 bounds='width symbolic 1..64, 3 entries, 3 stores at symbolic positions, values symbolic < 2^w'))
-    obs.append(O('c17.logseq.saveload.cap3', 'C17', 'h_codec.cpp', 'h_logseq_saveload', CODEC_TUS, defs={'CAP': 3}, unwind=5,
-                 unwindset={'^h_': 40, '_ZNSo5write': 34, '_ZNSi4read': 34, 'verif_stream': 40}, cdefs={'VS_CAP': 40}, bounds='width symbolic 1..64, 3 entries'))
-    obs.append(O('c17.cds.fields', 'C17', 'h_codec.cpp', 'h_cds_fields', CODEC_TUS, unwind=65,
-                 bounds='width symbolic 1..32, 3 fields; bits() all 2^32; bit ops on 64 bits'))
-    return obs
-
-
-
 def pfc_caps(n, l, bs, memalloc):
     """allocation case-split caps derived from the stated bounds (checked by assertion, not assumed)"""
     bs = max(bs, 2)
@@ -65,24 +50,6 @@ def pfc(name, prop, entry, n, l, bs, unwind=None, memalloc=None, **kw):
                     (n, l, bs, memalloc, ' (buffer growth exercised)' if grow else ''), **kw)
 
 
-def c01():
-    obs = []
-    obs.append(pfc('c01.pfc.n2l2.bs2', 'C01', 'h_pfc_c01', 2, 2, 2))
-    obs.append(pfc('c01.pfc.n3l2.bs2', 'C01', 'h_pfc_c01', 3, 2, 2))
-    obs.append(pfc('c01.pfc.n3.len222.bs2', 'C01', 'h_pfc_c01', 3, 2, 2, defs={'LENV': '{2,2,2}'}))
-    obs.append(pfc('c01.pfc.n3.len121.bs2', 'C01', 'h_pfc_c01', 3, 2, 2, defs={'LENV': '{1,2,1}'}))
-    obs.append(pfc('c01.pfc.n4.len2222.bs2', 'C01', 'h_pfc_c01', 4, 2, 2, defs={'LENV': '{2,2,2,2}'}, timeout=900))
-    obs.append(pfc('c01.pfc.n3.len333.bs2', 'C01', 'h_pfc_c01', 3, 3, 2, defs={'LENV': '{3,3,3}'}, timeout=900))
-    return obs
-
-
-def px():
-    obs = []
-    for e in ['c12', 'saveload', 'c14']:
-        obs.append(pfc('px.%s' % e, 'PX', 'h_pfc_' + e, 3, 2, 2, defs={'LENV': '{1,2,2}', 'BS2': 3}, timeout=900))
-    return obs
-
-
 BITSEQ_TUS = ['libcds/src/bitsequence/BitSequence.cpp', 'libcds/src/bitsequence/BitSequenceRG.cpp', 'libcds/src/utils/BitString.cpp', 'libcds/src/utils/cppUtils.cpp']
 DAC_TUS = ['utils/DAC_VLS.cpp', 'utils/DAC_BVLS.cpp'] + BITSEQ_TUS
 BITSEQ_STUBS = ['_ZN10cds_static14BitSequenceRRR4loadERSi', '_ZN10cds_static18BitSequenceSDArray4loadERSi', '_ZN10cds_static17BitSequenceDArray4loadERSi']
@@ -92,30 +59,6 @@ def unit(name, prop, entry, tus, **kw):
     kw.setdefault('extra_stub', BITSEQ_STUBS)
     kw.setdefault('extra_c', ['stub_bitseq_loaders.c'])
     return O(name, prop, 'h_units.cpp', entry, tus, **kw)
-
-
-def ux():
-    obs = []
-    d = {'NSEQ': 2, 'SEQLENS': '{2,1}', 'MAXSEQ': 2, 'VS_BOUND': 96}
-    c = {'IR2C_MAXBYTES': 16, 'IR2C_MAXELEMS': 8, 'VS_CAP': 96}
-    obs.append(unit('ux.dacvls.access', 'UX', 'h_dacvls_access', DAC_TUS, defs=d, cdefs=c, unwind=8))
-    obs.append(unit('ux.dacvls.saveload', 'UX', 'h_dacvls_saveload', DAC_TUS, defs=d, cdefs=c, unwind=8, unwindset={'_ZNSo5write': 33, '_ZNSi4read': 33, 'verif_stream_equal': 97}))
-    obs.append(unit('ux.dacbvls', 'UX', 'h_dacbvls', DAC_TUS, defs=dict(d, BVLS_SAVE=None), cdefs=c, unwind=8, unwindset={'_ZNSo5write': 33, '_ZNSi4read': 33, 'verif_stream_equal': 97}))
-    d1 = {'NSEQ': 2, 'SEQLENS': '{1,1}', 'MAXSEQ': 1, 'VS_BOUND': 96}
-    obs.append(unit('ux.dacvls.access.len1', 'UX', 'h_dacvls_access', DAC_TUS, defs=d1, cdefs=c, unwind=8))
-    for nb, fa in [(33, 4), (65, 2), (32, 1), (1, 20)]:
-        us = {'^(h_|_ZL)': 2 * nb + 40, '_ZNSo5write': 33, '_ZNSi4read': 33, 'verif_stream_equal': 97}
-        for part in (1, 2, 3, 4):
-            b = {'NBITS': nb, 'FACTOR': fa, 'VS_BOUND': 96, 'PART': part}
-            obs.append(unit('ux.bitseqrg.n%d.f%d.p%d' % (nb, fa, part), 'UX', 'h_bitseqrg', BITSEQ_TUS, defs=b, cdefs=c, unwind=10, unwindset=us, solver='kissat'))
-        b = {'NBITS': nb, 'FACTOR': fa, 'VS_BOUND': 96, 'PART': 1}
-        obs.append(unit('ux.bitseqrg.saveload.n%d.f%d' % (nb, fa), 'UX', 'h_bitseqrg_saveload', BITSEQ_TUS, defs=b, cdefs=c, unwind=10, unwindset=us, solver='kissat'))
-    b = {'NBITS': 33, 'FACTOR': 4, 'VS_BOUND': 96}
-    obs.append(unit('ux.bitstring', 'UX', 'h_bitstring', BITSEQ_TUS, defs=b, cdefs=c, unwind=10, unwindset={'^(h_|_ZL)': 100, '_ZNSo5write': 33, '_ZNSi4read': 33}))
-    for e in ['contiguous', 'duplicates', 'nocontiguous', 'stringvector']:
-        obs.append(unit('ux.it.' + e, 'UX', 'h_it_' + e, [], defs={'NIDS': 4}, cdefs=c, unwind=8, unwindset={'^h_': 20}))
-    obs.append(unit('ux.reallocate', 'UX', 'h_reallocate', [], defs={'RLEN': 4}, cdefs=c, unwind=18))
-    return obs
 
 
 CSD_TUS = """StringDictionary.cpp StringDictionaryFMINDEX.cpp StringDictionaryHASHHF.cpp StringDictionaryHASHRPDAC.cpp StringDictionaryHASHRPF.cpp
@@ -155,21 +98,235 @@ def kind_ob(name, prop, entry, kind, flags=(), **kw):
     return O(name, prop, 'h_kinds.cpp', entry, CSD_TUS, defs=defs, bounds='kind %s, default-constructed object with symbolic element count' % kind, **kw)
 
 
-def kx():
+
+import itertools
+
+Q = 'quick'; T = 'thorough'
+
+
+def shapes(n, l):
+    return [list(x) for x in itertools.product(range(1, l + 1), repeat=n)]
+
+
+def lenv(sh):
+    return '{' + ','.join(str(x) for x in sh) + '}'
+
+
+QUICK_SHAPES3 = [[2, 2, 2], [1, 2, 2], [2, 1, 2], [1, 2, 1]]
+
+
+def pfc_family(prop, tag, entry, quick_bs=(2, 3), timeout_q=420, timeout_t=1500, extra_defs=None, quick_shapes=None, sym_n2=True, thorough_extra=True, **kw):
+    """the standard parameter sweep of one PFC harness entry:
+       quick   : N=2 symbolic lengths (all shapes) + selected N=3 shapes, bucket sizes quick_bs
+       thorough: every N=3,L=2 shape x bucketsize {2,3,4}; N=4,L=2 shapes; N=3,L=3 shapes; N=5,L=1"""
     obs = []
-    for k in KINDS:
-        obs.append(kind_ob('kx.guard.' + k.lower(), 'KX', 'h_kind_extract_guard', k))
-        if KINDS[k][3]: obs.append(kind_ob('kx.unsup.' + k.lower(), 'KX', 'h_kind_unsupported', k, flags=KINDS[k][3]))
-        obs.append(kind_ob('kx.wrongtag.' + k.lower(), 'KX', 'h_kind_load_wrong_tag', k))
-    loaders = ['_ZN22StringDictionaryHASHHF4loadERSij', '_ZN26StringDictionaryHASHUFFDAC4loadERSi', '_ZN23StringDictionaryHASHRPF4loadERSij', '_ZN25StringDictionaryHASHRPDAC4loadERSij',
-               '_ZN19StringDictionaryPFC4loadERSi', '_ZN20StringDictionaryRPFC4loadERSi', '_ZN20StringDictionaryHTFC4loadERSi', '_ZN21StringDictionaryHHTFC4loadERSi',
-               '_ZN22StringDictionaryRPHTFC4loadERSi', '_ZN21StringDictionaryRPDAC4loadERSi', '_ZN23StringDictionaryFMINDEX4loadERSi', '_ZN19StringDictionaryXBW4loadERSi']
-    obs.append(O('kx.dispatch', 'KX', 'h_kinds.cpp', 'h_generic_dispatch', ['StringDictionary.cpp'], unwind=6, cdefs={'VS_CAP': 32}, extra_stub=loaders + ['verif_sentinel'],
-                 extra_c=['stub_kind_loaders.c'], unwindset={'^(h_|_ZL)': 40}, bounds='all 2^32 tags, all load options'))
+    ed = dict(extra_defs or {})
+    def mk(name, n, l, bs, sh, tier, timeout):
+        dd = dict(ed)
+        if sh is not None: dd['LENV'] = lenv(sh)
+        obs.append(pfc('%s.%s.n%d%s.bs%d' % (prop.lower(), tag, n, ('.len' + ''.join(map(str, sh))) if sh else 'l%d' % l, bs), prop, entry, n, l, bs,
+                       defs=dd, tier=tier, timeout=timeout, **kw))
+    if sym_n2:
+        mk(tag, 2, 2, 2, None, Q, timeout_q)
+    for sh in (quick_shapes or QUICK_SHAPES3):
+        for bs in quick_bs:
+            mk(tag, 3, 2, bs, sh, Q, timeout_q)
+    if thorough_extra:
+        for sh in shapes(3, 2):
+            for bs in (2, 3, 4):
+                if sh in (quick_shapes or QUICK_SHAPES3) and bs in quick_bs: continue
+                mk(tag, 3, 2, bs, sh, T, timeout_t)
+        for sh in [[2, 2, 2, 2], [1, 2, 2, 1], [2, 1, 2, 2], [1, 1, 2, 2]]:
+            for bs in (2, 3):
+                mk(tag, 4, 2, bs, sh, T, timeout_t)
+        for sh in [[3, 3, 3], [1, 2, 3], [3, 1, 2]]:
+            mk(tag, 3, 3, 2, sh, T, timeout_t)
+        mk(tag, 5, 1, 2, [1, 1, 1, 1, 1], T, timeout_t)
     return obs
 
 
-TABLE = {'C17': c17, 'C01': c01, 'PX': px, 'UX': ux, 'KX': kx}
+def dac_obs(prop, what=('access', 'saveload'), tier_all=False):
+    obs = []
+    c = {'IR2C_MAXBYTES': 16, 'IR2C_MAXELEMS': 8, 'VS_CAP': 96}
+    us = {'^(h_|_ZL)': 30, '_ZNSo5write': 33, '_ZNSi4read': 33, 'verif_stream_equal': 97}
+    # (sequence lengths, max_seq_length): last sequence of one symbol, of maximal length, all of length one ...
+    cfgs = [([2, 1], 2, Q), ([1, 1], 1, Q), ([1, 2], 2, Q), ([2, 2], 2, T), ([3, 1, 2], 3, T), ([1, 3, 1], 3, T), ([1, 1, 1], 1, T), ([2, 3, 3], 3, T)]
+    for lens, mx, tier in cfgs:
+        d = {'NSEQ': len(lens), 'SEQLENS': lenv(lens), 'MAXSEQ': mx, 'VS_BOUND': 96}
+        nm = ''.join(map(str, lens))
+        if 'access' in what:
+            obs.append(unit('%s.dacvls.access.len%s' % (prop.lower(), nm), prop, 'h_dacvls_access', DAC_TUS, defs=d, cdefs=c, unwind=8, unwindset=us, tier=tier,
+                            bounds='%d sequences of lengths %s (4-bit symbols symbolic), list length as the dictionary constructors compute it' % (len(lens), lens)))
+            obs.append(unit('%s.dacvls.access.len%s.fulllist' % (prop.lower(), nm), prop, 'h_dacvls_access', DAC_TUS, defs=dict(d, DACLEN='(ic)'), cdefs=c, unwind=8, unwindset=us, tier=T,
+                            bounds='same, list length including the final marker'))
+        if 'saveload' in what:
+            obs.append(unit('%s.dacvls.saveload.len%s' % (prop.lower(), nm), prop, 'h_dacvls_saveload', DAC_TUS, defs=d, cdefs=c, unwind=8, unwindset=us, tier=tier, timeout=600,
+                            bounds='%d sequences of lengths %s; save, save, load, save' % (len(lens), lens)))
+        if 'bvls' in what:
+            obs.append(unit('%s.dacbvls.len%s' % (prop.lower(), nm), prop, 'h_dacbvls', DAC_TUS, defs=dict(d, BVLS_SAVE=None), cdefs=c, unwind=8, unwindset=us, tier=tier, timeout=600,
+                            bounds='%d byte sequences of lengths %s (bytes symbolic), public constructor as HASHUFFDAC calls it' % (len(lens), lens)))
+    return obs
+
+
+def bitseq_obs(prop, parts=(1, 2, 3, 4), saveload=True):
+    obs = []
+    c = {'IR2C_MAXBYTES': 16, 'IR2C_MAXELEMS': 8, 'VS_CAP': 96}
+    for nb, fa, tier in [(33, 4, Q), (65, 2, Q), (32, 1, Q), (1, 20, Q), (31, 4, T), (64, 2, T), (70, 1, T), (65, 20, T), (33, 2, T)]:
+        us = {'^(h_|_ZL)': 2 * nb + 40, '_ZNSo5write': 33, '_ZNSi4read': 33, 'verif_stream_equal': 97}
+        for part in parts:
+            b = {'NBITS': nb, 'FACTOR': fa, 'VS_BOUND': 96, 'PART': part}
+            obs.append(unit('%s.bitseqrg.n%d.f%d.p%d' % (prop.lower(), nb, fa, part), prop, 'h_bitseqrg', BITSEQ_TUS, defs=b, cdefs=c, unwind=10, unwindset=us, solver='kissat', tier=tier,
+                            timeout=600, bounds='all bitmaps of %d bits, sampling factor %d, clause %d (1 access/rank, 2 select1, 3 select0, 4 selectNext1)' % (nb, fa, part)))
+        if saveload:
+            b = {'NBITS': nb, 'FACTOR': fa, 'VS_BOUND': 96, 'PART': 1}
+            obs.append(unit('%s.bitseqrg.saveload.n%d.f%d' % (prop.lower(), nb, fa), prop, 'h_bitseqrg_saveload', BITSEQ_TUS, defs=b, cdefs=c, unwind=10, unwindset=us, solver='kissat',
+                            tier=tier, timeout=600, bounds='all bitmaps of %d bits, factor %d: save, save, generic load, rank/access on the loaded object, save' % (nb, fa)))
+    b = {'NBITS': 33, 'FACTOR': 4, 'VS_BOUND': 96}
+    obs.append(unit('%s.bitstring' % prop.lower(), prop, 'h_bitstring', BITSEQ_TUS, defs=b, cdefs=c, unwind=10, unwindset={'^(h_|_ZL)': 100, '_ZNSo5write': 33, '_ZNSi4read': 33},
+                    bounds='33-bit BitString: 3 symbolic stores, read back, save/load/save'))
+    return obs
+
+
+def iter_obs(prop, which=('contiguous', 'duplicates', 'nocontiguous', 'stringvector')):
+    c = {'IR2C_MAXBYTES': 16, 'IR2C_MAXELEMS': 8}
+    return [unit('%s.it.%s' % (prop.lower(), e), prop, 'h_it_' + e, [], defs={'NIDS': 4}, cdefs=c, unwind=8, unwindset={'^h_': 20},
+                 bounds='iterator over <= 4 symbolic ids / 3 symbolic strings') for e in which]
+
+
+def kind_obs(prop, entries):
+    obs = []
+    for k in KINDS:
+        if 'guard' in entries: obs.append(kind_ob('%s.guard.%s' % (prop.lower(), k.lower()), prop, 'h_kind_extract_guard', k))
+        if 'unsup' in entries and KINDS[k][3]: obs.append(kind_ob('%s.unsup.%s' % (prop.lower(), k.lower()), prop, 'h_kind_unsupported', k, flags=KINDS[k][3]))
+        if 'wrongtag' in entries: obs.append(kind_ob('%s.wrongtag.%s' % (prop.lower(), k.lower()), prop, 'h_kind_load_wrong_tag', k))
+    if 'dispatch' in entries:
+        loaders = ['_ZN22StringDictionaryHASHHF4loadERSij', '_ZN26StringDictionaryHASHUFFDAC4loadERSi', '_ZN23StringDictionaryHASHRPF4loadERSij', '_ZN25StringDictionaryHASHRPDAC4loadERSij',
+                   '_ZN19StringDictionaryPFC4loadERSi', '_ZN20StringDictionaryRPFC4loadERSi', '_ZN20StringDictionaryHTFC4loadERSi', '_ZN21StringDictionaryHHTFC4loadERSi',
+                   '_ZN22StringDictionaryRPHTFC4loadERSi', '_ZN21StringDictionaryRPDAC4loadERSi', '_ZN23StringDictionaryFMINDEX4loadERSi', '_ZN19StringDictionaryXBW4loadERSi']
+        obs.append(O('%s.dispatch' % prop.lower(), prop, 'h_kinds.cpp', 'h_generic_dispatch', ['StringDictionary.cpp'], unwind=6, cdefs={'VS_CAP': 32}, extra_stub=loaders + ['verif_sentinel'],
+                     extra_c=['stub_kind_loaders.c'], unwindset={'^(h_|_ZL)': 40}, bounds='all 2^32 type tags, all load options; kind loaders replaced by sentinels'))
+    return obs
+
+
+def c01():
+    obs = pfc_family('C01', 'pfc', 'h_pfc_c01')
+    obs += pfc_family('C01', 'pfc.reload', 'h_pfc_saveload', quick_bs=(2,), quick_shapes=[[1, 2, 2]], sym_n2=False, timeout_q=600, thorough_extra=False)
+    obs += dac_obs('C01', what=('access',))
+    return obs
+
+
+def c02():
+    return pfc_family('C02', 'pfc', 'h_pfc_c02') + kind_obs('C02', ['guard'])
+
+
+def c03():
+    return pfc_family('C03', 'pfc', 'h_pfc_c03', quick_bs=(2, 3), quick_shapes=[[2, 2, 2], [1, 2, 2]])
+
+
+def c04():
+    obs = pfc_family('C04', 'pfc.ids', 'h_pfc_c04')
+    obs += pfc_family('C04', 'pfc.strs', 'h_pfc_c04x', quick_shapes=[[2, 2, 2], [1, 2, 2]])
+    obs += iter_obs('C04', which=('contiguous',))
+    return obs
+
+
+def c06():
+    obs = pfc_family('C06', 'pfc', 'h_pfc_saveload', quick_bs=(2, 3), quick_shapes=[[1, 2, 2], [2, 2, 2]], sym_n2=False, timeout_q=600)
+    obs += pfc_family('C06', 'pfc.generic', 'h_pfc_saveload', quick_bs=(2,), quick_shapes=[[2, 1, 2]], sym_n2=False, timeout_q=600, extra_defs={'GENERIC_LOADER': None}, thorough_extra=False)
+    obs += dac_obs('C06', what=('saveload', 'bvls'))
+    obs += [o for o in bitseq_obs('C06', parts=()) ]
+    obs += logseq_obs('C06')
+    obs += kind_obs('C06', ['dispatch'])
+    return obs
+
+
+def c07():
+    obs = []
+    # buffer growth: MEMALLOC hook 2..4 so that 2*len crosses the reservation exactly / by one
+    for sh, bs, ma, tier in [([2, 2, 2], 2, 2, Q), ([1, 2, 2], 2, 3, Q), ([2, 1, 2], 2, 4, Q), ([2, 2, 2], 3, 2, Q),
+                             ([2, 2, 2, 2], 2, 2, T), ([1, 1, 1], 2, 2, T), ([2, 2, 1], 2, 3, T), ([3, 3, 3], 2, 2, T), ([1, 2, 2], 3, 2, T)]:
+        n = len(sh); l = max(sh) if max(sh) > 2 else 2
+        obs.append(pfc('c07.pfc.grow.len%s.bs%d.m%d' % (''.join(map(str, sh)), bs, ma), 'C07', 'h_pfc_c01', n, l, bs, memalloc=ma, defs={'LENV': lenv(sh)}, tier=tier,
+                       timeout=900 if tier == Q else 1500))
+    obs += pfc_family('C07', 'pfc.hist', 'h_pfc_c07hist', quick_bs=(2,), quick_shapes=[[1, 2, 2], [2, 2, 2]], sym_n2=False, timeout_q=900, thorough_extra=False, extra_defs={'HIST': 2})
+    obs.append(unit('c07.reallocate', 'C07', 'h_reallocate', [], defs={'RLEN': 4}, cdefs={'IR2C_MAXBYTES': 16, 'IR2C_MAXELEMS': 8}, unwind=18, bounds='Reallocate(uchar**/int**) on 4 symbolic entries'))
+    obs += [o for o in dac_obs('C07', what=('access',)) if 'fulllist' not in o.name]
+    obs += iter_obs('C07', which=('duplicates',))
+    return obs
+
+
+def c08():
+    obs = pfc_family('C08', 'pfc.twice', 'h_pfc_build_twice', quick_shapes=[[2, 2, 2], [1, 2, 2]])
+    obs += pfc_family('C08', 'pfc.resave', 'h_pfc_saveload', quick_bs=(2,), quick_shapes=[[2, 2, 1]], sym_n2=False, timeout_q=600, thorough_extra=False)
+    obs += pfc_family('C08', 'pfc.pure', 'h_pfc_c14s', quick_bs=(2,), quick_shapes=[[1, 2, 2]], sym_n2=False, timeout_q=600, thorough_extra=False)
+    obs += dac_obs('C08', what=('saveload', 'bvls'))
+    obs += logseq_obs('C08')
+    return obs
+
+
+def c12():
+    obs = []
+    for sh, b1, b2, tier in [([2, 2, 2], 2, 3, Q), ([1, 2, 2], 2, 4, Q), ([2, 1, 2], 3, 4, Q), ([1, 2, 1], 1, 2, Q), ([2, 2, 2], 0, 2, Q),
+                             ([2, 2, 2], 2, 4, T), ([1, 2, 2], 2, 3, T), ([2, 2, 1], 2, 3, T), ([1, 1, 1], 2, 3, T), ([2, 2, 2, 2], 2, 3, T), ([2, 2, 2, 2], 2, 5, T), ([1, 2, 2], 1, 2, T)]:
+        n = len(sh)
+        obs.append(pfc('c12.pfc.len%s.bs%d_vs_%d' % (''.join(map(str, sh)), b1, b2), 'C12', 'h_pfc_c12', n, 2, b1, defs={'LENV': lenv(sh), 'BS2': b2, 'C12_PREFIX': None}, tier=tier,
+                       timeout=600 if tier == Q else 1500))
+    return obs
+
+
+def c13():
+    obs = pfc_family('C13', 'pfc.table', 'h_pfc_c13')
+    obs += pfc_family('C13', 'pfc.prefix', 'h_pfc_c04x', quick_bs=(2,), quick_shapes=[[2, 2, 2]], sym_n2=False, thorough_extra=False)
+    obs += iter_obs('C13')
+    return obs
+
+
+def c14():
+    obs = []
+    for ka in (0, 1, 2):
+        obs += pfc_family('C14', 'pfc.aba.q%d' % ka, 'h_pfc_c14', quick_bs=(2,), quick_shapes=[[1, 2, 2]], sym_n2=False, timeout_q=900, extra_defs={'KA': ka}, thorough_extra=(ka == 0))
+    obs += pfc_family('C14', 'pfc.state', 'h_pfc_c14s', quick_bs=(2, 3), quick_shapes=[[1, 2, 2]], sym_n2=False, timeout_q=600, thorough_extra=False)
+    return obs
+
+
+def c15():
+    obs = pfc_family('C15', 'pfc', 'h_pfc_c01', quick_shapes=[[2, 2, 2], [1, 2, 1]])
+    obs += pfc_family('C15', 'pfc.reload', 'h_pfc_saveload', quick_bs=(2,), quick_shapes=[[1, 2, 2]], sym_n2=False, timeout_q=600, thorough_extra=False)
+    return obs
+
+
+def c16():
+    obs = pfc_family('C16', 'pfc', 'h_pfc_c16', quick_bs=(2,), quick_shapes=[[1, 2, 2], [2, 2, 2]], thorough_extra=False)
+    obs += kind_obs('C16', ['unsup', 'wrongtag', 'dispatch'])
+    return obs
+
+
+def logseq_obs(prop):
+    return [O('%s.logseq.saveload.cap3' % prop.lower(), prop, 'h_codec.cpp', 'h_logseq_saveload', CODEC_TUS, defs={'CAP': 3}, unwind=5,
+              unwindset={'^h_': 40, '_ZNSo5write': 34, '_ZNSi4read': 34, 'verif_stream': 40}, cdefs={'VS_CAP': 40}, bounds='width symbolic 1..64, 3 entries')]
+
+
+def c17():
+    obs = []
+    obs.append(O('c17.vbyte.roundtrip', 'C17', 'h_codec.cpp', 'h_vbyte_roundtrip', CODEC_TUS, unwind=7, bounds='all 2^32 values'))
+    obs.append(O('c17.vb2.roundtrip', 'C17', 'h_codec.cpp', 'h_vb2_roundtrip', CODEC_TUS, unwind=7, bounds='all 2^32 values'))
+    obs.append(O('c17.logseq.setget.cap3', 'C17', 'h_codec.cpp', 'h_logseq_setget', CODEC_TUS, defs={'CAP': 3}, unwind=12,
+                 bounds='width symbolic 1..64, 3 entries, 3 stores at symbolic positions, values symbolic < 2^w'))
+    obs.append(O('c17.logseq.setget.cap5', 'C17', 'h_codec.cpp', 'h_logseq_setget', CODEC_TUS, defs={'CAP': 5}, unwind=20, tier=T, timeout=1500,
+                 bounds='width symbolic 1..64, 5 entries, 3 stores'))
+    obs += logseq_obs('C17')
+    obs.append(O('c17.cds.fields', 'C17', 'h_codec.cpp', 'h_cds_fields', CODEC_TUS, unwind=65,
+                 bounds='width symbolic 1..32, 3 fields; bits() all 2^32; bit ops on 64 bits'))
+    obs += dac_obs('C17', what=('access', 'saveload', 'bvls'))
+    return obs
+
+
+def c19():
+    return bitseq_obs('C19')
+
+
+TABLE = {'C01': c01, 'C02': c02, 'C03': c03, 'C04': c04, 'C06': c06, 'C07': c07, 'C08': c08, 'C12': c12, 'C13': c13, 'C14': c14,
+         'C15': c15, 'C16': c16, 'C17': c17, 'C19': c19}
 
 
 def obligations(prop):
